@@ -143,9 +143,7 @@ class Interp:
             return RecV(term, heap)
         if isinstance(ty, TOpt):
             sv = SV(term, ty)
-            sv_heap = heap
-            if heap is not None:
-                self._opt_heap[id(sv)] = heap
+            sv.heap = heap     # heap view (old / loop_old) the value was read from: kept when narrowed
             return sv
         if isinstance(ty, TTuple):
             s = sort_of(ty)
@@ -157,7 +155,7 @@ class Interp:
     def narrow_opt(self, v):
         """Optional value known not to be None -> inner value"""
         ty = v.ty.t
-        return self.wrap(self.opt_payload(v), ty, None)
+        return self.wrap(self.opt_payload(v), ty, getattr(v, 'heap', None))
 
     def assume_domain(self, v):
         """shape validity of a freshly read value: enum domain, list length >= 0, non-null for non-Optional refs"""
